@@ -50,6 +50,86 @@ def sweep_history(rng, pairs, max_ids, descs_per_sub=2, via="idman") -> dict:
             "ops": [dict(o, n=i) for i, o in enumerate(ops)]}
 
 
+# the documented textual / integer names of the five spaces (IDSpace.from_string; an int argument is read as its decimal text):
+# the number names the bits of an ID that may be non-zero, "d"/"_diacritic" the third diacritic, "256" the 256-colour index
+ALIASES = {
+    (24, True): ["32", "32bit", 32],
+    (24, False): ["24", "24bit", 24],
+    (0, True): ["8d", "8bit_diacritic"],
+    (8, False): ["8", "8bit", "256", 8, 256],
+    (8, True): ["16", "16d", "16bit", "16bit_diacritic", 16],
+}
+CFG_VIAS = ["kwargs", "overrides", "env", "toml", "property", "cfgobj"]
+
+
+def _space_form(rng, sp, allow_int=True, allow_obj=True):
+    al = [a for a in ALIASES[tuple(sp)] if allow_int or isinstance(a, str)]
+    if allow_obj and rng.random() < 0.25:
+        return {"t": "obj", "v": [sp[0], bool(sp[1])]}
+    a = rng.choice(al)
+    return {"t": "int" if isinstance(a, int) else "str", "v": a}
+
+
+def _sub_form(rng, su, allow_obj=True):
+    if allow_obj and rng.random() < 0.4:
+        return {"t": "obj", "v": list(su)}
+    return {"t": "str", "v": "" if tuple(su) == (0, 256) and rng.random() < 0.3 else f"{su[0]}:{su[1]}"}
+
+
+def forms_history(rng, subs, n_ops=14, max_ids=1024) -> dict:
+    """ONE long-lived TupimageTerminal with a configured non-default id_space / id_subspace (given as object or text, through a
+    keyword, config_overrides, the environment, a config file, the property, or a TupimageConfig object); assign_id calls that
+    mix explicit spaces/subspaces in every accepted form (object, text alias, int) with calls that rely on the configured
+    default (None); the default is changed through the properties in between. Oracle: Spec.member for the space/subspace that
+    applies to each call."""
+    via = rng.choice(CFG_VIAS)
+    text_only = via in ("env", "toml")
+    cur_sp = rng.choice(SPACES)
+    cur_su = rng.choice(subs)
+    tconfig = {"via": via}
+    if rng.random() < 0.85:
+        f = _space_form(rng, cur_sp, allow_int=(via == "cfgobj"), allow_obj=not text_only)
+        tconfig["id_space"] = f
+    else:
+        cur_sp = (24, True)          # the library default
+    if rng.random() < 0.85:
+        tconfig["id_subspace"] = _sub_form(rng, cur_su, allow_obj=not text_only)
+    else:
+        cur_su = (0, 256)
+    ops = []
+    for k in range(n_ops):
+        r = rng.random()
+        if r < 0.12 and k > 0:
+            o = {"op": "setcfg", "dt": 0}
+            if rng.random() < 0.6:
+                cur_sp = rng.choice(SPACES)
+                o["id_space"] = _space_form(rng, cur_sp, allow_int=False)
+            else:
+                cur_su = rng.choice(subs)
+                o["id_subspace"] = _sub_form(rng, cur_su)
+            ops.append(o)
+            continue
+        o = {"op": "get", "d": f":v:{rng.choice(DESCS[14:26])}", "dt": rng.choice([1, 1, 1000])}
+        if rng.random() < 0.5:
+            sp = cur_sp
+            o["spa"] = {"t": "none"}
+        else:
+            sp = rng.choice(SPACES)
+            f = _space_form(rng, sp)
+            o["spa"] = {"t": "obj"} if f["t"] == "obj" else f
+        if rng.random() < 0.5:
+            su = cur_su
+            o["sua"] = {"t": "none"}
+        else:
+            su = rng.choice(subs)
+            f = _sub_form(rng, su)
+            o["sua"] = {"t": "obj"} if f["t"] == "obj" else f
+        o["sp"], o["su"] = [sp[0], bool(sp[1])], list(su)
+        ops.append(o)
+    return {"max_ids": max_ids, "seed": rng.randrange(1 << 30), "start": dbutil.T0, "profile": "forms", "via": "terminal",
+            "tconfig": tconfig, "ops": [dict(o, n=i) for i, o in enumerate(ops)]}
+
+
 def outside_history(rng, subs_by_space, max_ids) -> dict:
     """a description already bound to an id just OUTSIDE the requested subspace (same space, subspace byte
     begin-1 / end / 0) must not be handed out for the request: force-set such ids, then request."""
@@ -116,8 +196,7 @@ def _child(case: dict, out_path: str):
     drv = Driver("drv_db")
     res = {"error": None}
     try:
-        term = TupimageTerminal(id_database=os.path.join(d, "ids.db"), config="DEFAULT",
-                                max_ids_per_subspace=int(case["max_ids"]), num_tmux_layers=0)
+        term = _make_terminal(TupimageTerminal, case, d)
         fd = run_history(drv, case, terminal=term)
         res.update(mismatches=fd.mismatches, violations=fd.violations, stats=fd.stats)
     except BaseException as e:          # noqa: BLE001
@@ -129,6 +208,40 @@ def _child(case: dict, out_path: str):
         shutil.rmtree(d, ignore_errors=True)
     with open(out_path, "w") as f:
         json.dump(res, f, default=repr)
+
+
+def _make_terminal(TupimageTerminal, case: dict, d: str):
+    """the terminal of a history; case["tconfig"] = {"via": layer, "id_space": form?, "id_subspace": form?} configures the default
+    space / subspace through one of the configuration layers (forms: {"t":"obj","v":[..]} | {"t":"str"|"int","v":..})"""
+    from tupimage import id_manager as im
+    from tupimage.tupimage_terminal import TupimageConfig
+    tc = case.get("tconfig") or {}
+    via = tc.get("via", "kwargs")
+    vals = {k: dbutil._cfg_value(im, k, tc[k]) for k in ("id_space", "id_subspace") if k in tc}
+    base = dict(id_database=os.path.join(d, "ids.db"), max_ids_per_subspace=int(case["max_ids"]), num_tmux_layers=0)
+    if via == "kwargs":
+        return TupimageTerminal(config="DEFAULT", **base, **vals)
+    if via == "overrides":
+        return TupimageTerminal(config="DEFAULT", config_overrides=dict(vals), **base)
+    if via == "env":
+        for k, v in vals.items():
+            os.environ["TUPIMAGE_" + k.upper()] = str(v)
+        return TupimageTerminal(config="DEFAULT", **base)
+    if via == "toml":
+        path = os.path.join(d, "config.toml")
+        with open(path, "w") as f:
+            for k, v in vals.items():
+                f.write(f'{k} = "{v}"\n')
+        return TupimageTerminal(config=path, **base)
+    if via == "property":
+        term = TupimageTerminal(config="DEFAULT", **base)
+        for k, v in vals.items():
+            setattr(term, k, v)
+        return term
+    if via == "cfgobj":
+        # a TupimageConfig built in code keeps whatever it was given (the dataclass does not normalise)
+        return TupimageTerminal(config=TupimageConfig(**vals), **base)
+    raise ValueError(via)
 
 
 def run_in_pty(case: dict) -> dict:
@@ -213,6 +326,10 @@ def cases(ctx: Ctx):
     yield fill_history(rng, (8, False), (1, 4), 1024, 3, via="terminal")
     yield fill_history(rng, (0, True), (254, 256), 1, 2, via="terminal")
     yield sweep_history(rng, [(sp, su) for sp in SPACES for su in rng.sample(subs, 8)], 2, 1, via="terminal")
+    # 3b. one long-lived terminal, configured non-default space/subspace, every argument form, defaults changed in between
+    near = [(30, 40), (100, 200), (1, 2), (0, 2), (255, 256), (0, 256), (1, 256), (5, 9), (40, 100), (200, 256)]
+    for _ in range(6 if quick else 40):
+        yield forms_history(rng, near + rng.sample(subs, 4), rng.choice([8, 14, 24]))
     # 4. random subspaces of every space (thorough: all 5 x 32 895), sizes of every class; then mixed C02-style histories
     todo = [(sp, su) for sp in SPACES for su in (rng.sample(subs, 300) if quick else subs)]
     rng.shuffle(todo)
@@ -232,6 +349,8 @@ def cases(ctx: Ctx):
         elif r < 0.70:
             k += 1
             yield dict(gen02(rng, "collide", rng.randint(5, 60)), profile="collide")
+        elif r < 0.72:
+            yield forms_history(rng, rng.sample(subs, 6) + [(0, 256), (1, 2)], rng.choice([6, 14, 30]), rng.choice([1, 2, 1024]))
         elif r < 0.74 and k % 3 == 0:
             k += 1
             yield sweep_history(rng, [(sp, su) for sp in SPACES for su in rng.sample(subs, 4)], rng.choice([1, 1024]), 1, via="terminal")
@@ -245,7 +364,10 @@ def run(ctx: Ctx):
     ctx.rule = ("cases = histories; every id returned by get_id / assign_id is judged by Spec.member: one request per (space, "
                 "subspace) over boundary subspaces x max_ids in {1, 1024, 10^6} and random (thorough: all 5 x 32 895) subspaces; "
                 "subspaces filled past full (recycled ids) with hits/deletes/overlapping requests; large-path histories with steered "
-                "collisions and clean-ups; TupimageTerminal.assign_id in a pty child. distinct = canonical JSON; non-trivial = "
+                "collisions and clean-ups; TupimageTerminal.assign_id in a pty child, incl. one long-lived terminal with a configured non-default "
+                "space/subspace (object / text alias, through keyword, config_overrides, environment, config file, property, TupimageConfig), "
+                "explicit arguments in every accepted form (object, text alias, int) mixed with default (None) calls and property changes; "
+                "mixed histories alternate between 1-3 IDManager objects on the one file. distinct = canonical JSON; non-trivial = "
                 "history with at least one returned id")
     run_corpus(ctx, PROP, check_case)
     budget = ctx.budget_s * (0.72 if ctx.quick else 0.85)
